@@ -13,6 +13,8 @@ import (
 	"fmt"
 	"os"
 	"path/filepath"
+	"runtime/debug"
+	"runtime/pprof"
 	"strings"
 	"time"
 
@@ -43,7 +45,14 @@ func main() {
 	argv := flag.String("args", "", "os.Args of the target (space separated)")
 	batch := flag.String("batch", "", "JSON file: list of {Entry,Args,Params,Real}; concrete runs in parallel")
 	keepOut := flag.Bool("keep-output", false, "store stdout/stderr of sampled paths")
+	cpuprof := flag.String("cpuprofile", "", "write cpu profile")
 	flag.Parse()
+	debug.SetGCPercent(800)
+	if *cpuprof != "" {
+		f, _ := os.Create(*cpuprof)
+		pprof.StartCPUProfile(f)
+		defer pprof.StopCPUProfile()
+	}
 	if *entry == "" && *batch == "" {
 		fmt.Fprintln(os.Stderr, "missing -entry")
 		os.Exit(2)
